@@ -216,7 +216,7 @@ def run_case(ctx, case):
              "m_class": "default" if m_req is None else ("m<n" if m_req < n else ("m=n" if m_req == n else "m>n"))}
     kw = {"tol": case["tol"]}
     if m_req is not None:
-        kw["max_iters"] = m_req
+        kw["max_iters"] = P.count_form(m_req, case["seed"] // 3)
     default_m = {"arnoldi": 100, "arnoldi_eigs": 100, "Arnoldi()": 1000}[case["fn"] if case["start"] != "batched" else "arnoldi"]
     m_used = default_m if m_req is None else m_req
     rng = P.rng_for("c15", case["seed"])
